@@ -329,7 +329,7 @@ func runC10(c *Ctx) {
 		sim.Bug("ScheduleRepeating: %v", err)
 	}
 	d.arm()
-	total := w.Range(3, 200)
+	total := w.Range(3, c.Deep(200))
 	for round := 0; round < 3000; round++ {
 		if d.seqSent < total {
 			for k, n := 0, w.Pick(1, 0, 2, 5, 12); k < n && d.seqSent < total; k++ {
